@@ -23,3 +23,23 @@ def wrsStr (ws : List Wr) : String :=
   if ws.isEmpty then "-" else ";".intercalate (ws.map wrStr)
 
 end Driver
+
+namespace Driver
+
+/-- the whole `main` of a per-engine model driver: for every input line
+    `case<TAB>id<TAB>engine.op<TAB>k=v…` print `model<TAB>id<TAB>result`. -/
+partial def runLoop (dispatch : String → List String → String) : IO Unit := do
+  let h ← IO.getStdin
+  let out ← IO.getStdout
+  let rec go : IO Unit := do
+    let line ← h.getLine
+    if line.isEmpty then return ()
+    let line := (line.dropEndWhile (fun c => c == '\n' || c == '\r')).toString
+    match line.splitOn "\t" with
+    | "case" :: id :: op :: args => out.putStrLn s!"model\t{id}\t{dispatch op args}"
+    | _ => pure ()
+    go
+  go
+  out.flush
+
+end Driver
